@@ -160,7 +160,7 @@ func body(r *explore.Run, sc scenario, rep *report.R) {
 	c1 := xrh.Claim("ns", "c1")
 	_ = unstructured.SetNestedField(c1.Object, "comp", "spec", "compositionRef", "name")
 	switch sc.initial {
-	case "hijack", "bindable":
+	case "hijack", "hijack-ns", "bindable":
 		c1.SetResourceReference(&reference.Composite{APIVersion: xrh.XRGVK.GroupVersion().String(), Kind: xrh.XRGVK.Kind, Name: "x2"})
 	case "ref-missing":
 		c1.SetResourceReference(&reference.Composite{APIVersion: xrh.XRGVK.GroupVersion().String(), Kind: xrh.XRGVK.Kind, Name: "c1-pending"})
@@ -168,6 +168,7 @@ func body(r *explore.Run, sc scenario, rep *report.R) {
 	s.Seed(c1)
 	w.firstRef = resourceRefOf(s.Peek(xrh.ClaimKey("ns", "c1")))
 	armed := false
+	deletedAtStart := false
 	var lagTaken []string
 	inj := &xrh.FaultInjector{Run: r, Reads: sc.reads, Filter: func(c simkube.Call) bool { return c.Client == "claim" }}
 	s.Inj = inj
@@ -189,23 +190,49 @@ func body(r *explore.Run, sc scenario, rep *report.R) {
 		if w.firstRef == "" {
 			panic(explore.HarnessError{Msg: "preparation: claim not bound"})
 		}
-	case "hijack":
+	case "hijack", "hijack-ns":
+		// The XR belongs to another claim: a different name, or the same
+		// name in another namespace.
+		ons, oname := "ns", "c2"
+		if sc.initial == "hijack-ns" {
+			ons, oname = "other", "c1"
+		}
 		x2 := xrh.XR("x2", "comp")
-		x2.SetClaimReference(&reference.Claim{APIVersion: xrh.ClaimGVK.GroupVersion().String(), Kind: xrh.ClaimGVK.Kind, Namespace: "ns", Name: "c2"})
-		x2.SetLabels(map[string]string{"crossplane.io/claim-name": "c2", "crossplane.io/claim-namespace": "ns"})
+		x2.SetClaimReference(&reference.Claim{APIVersion: xrh.ClaimGVK.GroupVersion().String(), Kind: xrh.ClaimGVK.Kind, Namespace: ons, Name: oname})
+		x2.SetLabels(map[string]string{"crossplane.io/claim-name": oname, "crossplane.io/claim-namespace": ons})
 		s.Seed(x2)
-		c2 := xrh.Claim("ns", "c2")
+		c2 := xrh.Claim(ons, oname)
 		c2.SetResourceReference(&reference.Composite{APIVersion: xrh.XRGVK.GroupVersion().String(), Kind: xrh.XRGVK.Kind, Name: "x2"})
 		s.Seed(c2)
 	case "bindable":
 		s.Seed(xrh.XR("x2", "comp"))
+	case "deleted":
+		// The claim was bound, then deleted and fully finalized; a lagging
+		// cache may still serve it.
+		for i := 0; i < 6; i++ {
+			xrh.Reconcile(crec.r, nn)
+			for _, x := range s.All(xrh.XRGVK.GroupKind()) {
+				xrh.Reconcile(xrec, types.NamespacedName{Name: x.GetName()})
+			}
+		}
+		_ = s.Client("user").Delete(context.Background(), xrh.Claim("ns", "c1"))
+		for i := 0; i < 6; i++ {
+			xrh.Reconcile(crec.r, nn)
+			for _, x := range s.All(xrh.XRGVK.GroupKind()) {
+				xrh.Reconcile(xrec, types.NamespacedName{Name: x.GetName()})
+			}
+		}
+		if s.Peek(xrh.ClaimKey("ns", "c1")) != nil || len(s.All(xrh.XRGVK.GroupKind())) != 0 {
+			panic(explore.HarnessError{Msg: "preparation: claim and XR not fully deleted"})
+		}
+		deletedAtStart = true
 	}
 	x2Before := s.Peek(xrh.XRKey("x2"))
 
 	s.OnWrite = append(s.OnWrite, w.onWrite)
 	logStart := len(s.Log)
 
-	deleted := false
+	deleted := deletedAtStart
 	for i := 0; i < sc.window; i++ {
 		// Between claim reconciles the environment may act: nothing, a full
 		// XR reconcile of every XR, or the user deleting the claim.
@@ -251,10 +278,10 @@ func body(r *explore.Run, sc scenario, rep *report.R) {
 	xs := w.xrsNaming("ns/c1")
 	cm := s.Peek(xrh.ClaimKey("ns", "c1"))
 	switch {
-	case sc.initial == "hijack":
+	case sc.initial == "hijack" || sc.initial == "hijack-ns":
 		x2 := s.Peek(xrh.XRKey("x2"))
-		if x2 == nil || x2.GetResourceVersion() != x2Before.GetResourceVersion() && claimRefOf(x2) != "ns/c2" {
-			r.Failf("J4/hijack/final", "XR x2 bound to ns/c2 was changed or removed on behalf of ns/c1")
+		if x2 == nil || x2.GetResourceVersion() != x2Before.GetResourceVersion() && claimRefOf(x2) != claimRefOf(x2Before) {
+			r.Failf("J4/hijack/final", "XR x2 bound to %s was changed or removed on behalf of ns/c1", claimRefOf(x2Before))
 		}
 		if len(xs) != 0 {
 			r.Failf("J4/hijack/bound", "an XR names ns/c1 although its resourceRef pointed at another claim's XR: %v", xs)
@@ -266,6 +293,12 @@ func body(r *explore.Run, sc scenario, rep *report.R) {
 		if resourceRefOf(cm) != xs[0] {
 			r.Failf("final/ref-mismatch", "claim references %q but XR %q names the claim", resourceRefOf(cm), xs[0])
 		}
+	}
+
+	// A claim that is gone must not leave an XR behind that names it: nobody
+	// would ever delete it.
+	if cm == nil && sc.initial != "hijack" && sc.initial != "hijack-ns" && len(xs) > 0 {
+		r.Failf("orphan/xr-for-deleted-claim/"+fmt.Sprintf("ssa=%v", sc.ssa), "claim ns/c1 no longer exists but XR(s) %v name it (created on its behalf from a stale read: %v)", xs, lagTaken)
 	}
 
 	var seq []string
@@ -298,7 +331,7 @@ func TestCheck(t *testing.T) {
 		[]string{"simkube", "structured-merge-diff (real)"},
 	)
 	var scs []scenario
-	initials := []string{"fresh", "bound", "hijack", "bindable", "ref-missing"}
+	initials := []string{"fresh", "bound", "hijack", "hijack-ns", "bindable", "ref-missing", "deleted"}
 	for _, ssa := range []bool{false, true} {
 		for _, in := range initials {
 			if report.Thorough() {
